@@ -227,6 +227,7 @@ class PE:
             self.subloads, self.substores = [], []
             self.augs = []
             self.user = {}
+            self._shared_lists = set()
             try:
                 kind, val, env = self._run(func, {k: _copy_containers(v) for k, v in (args or {}).items()}, body, 0, outer_env)
                 out.append(Outcome(kind, val, list(self.conds), list(self.stores), list(self.calls), env, dict(self.mem)))
@@ -770,6 +771,8 @@ class PE:
                         idx = tuple(idx)
                     if isinstance(idx, (str, int)) or (isinstance(idx, tuple) and all(isinstance(x, (str, int, bool, type(None))) for x in idx)):
                         if idx in base:
+                            if type(base[idx]) is list:
+                                self._shared_lists = getattr(self, '_shared_lists', set()) | {id(base[idx])}
                             return base[idx]
                         raise Raised('KeyError(%r)' % (idx,))
                 elif isinstance(idx, int) and not isinstance(idx, bool):
@@ -1081,6 +1084,15 @@ class PE:
         if isinstance(e.func, ast.Attribute):
             recv_node = e.func.value
             m = e.func.attr
+            if m in ('append', 'extend') and isinstance(recv_node, ast.Name) and isinstance(env.get(recv_node.id), list) and not isinstance(env.get(recv_node.id), PSet) and len(args) == 1 \
+                    and id(env[recv_node.id]) in getattr(self, '_shared_lists', ()):
+                # the local name is another reference to a list held in a dict / attribute: the object itself grows
+                if m == 'append':
+                    env[recv_node.id].append(args[0])
+                    return None
+                if isinstance(args[0], (list, tuple)):
+                    env[recv_node.id].extend(args[0])
+                    return None
             if m in ('append', 'extend') and isinstance(recv_node, ast.Name) and isinstance(env.get(recv_node.id), list) and not isinstance(env.get(recv_node.id), PSet) and len(args) == 1:
                 if m == 'append':
                     env[recv_node.id] = type(env[recv_node.id])(list(env[recv_node.id]) + [args[0]])
@@ -1166,7 +1178,10 @@ class PE:
             if m in ('get',) :
                 recv = self.expr(recv_node, env, func, depth)
                 if isinstance(recv, dict) and args and isinstance(args[0], (str, int)):
-                    return recv.get(args[0], args[1] if len(args) > 1 else None)
+                    r_ = recv.get(args[0], args[1] if len(args) > 1 else None)
+                    if type(r_) is list and args[0] in recv:
+                        self._shared_lists = getattr(self, '_shared_lists', set()) | {id(r_)}
+                    return r_
             if m == 'format':
                 tmpl = self.expr(recv_node, env, func, depth) if isinstance(recv_node, (ast.Constant, ast.Name)) else None
                 if isinstance(tmpl, str):
